@@ -185,7 +185,38 @@ func genCase(t *rapid.T) Case {
 		return m
 	}
 	mainName := "index." + mainExt
-	switch rapid.IntRange(0, 5).Draw(t, "relation") {
+	switch rapid.IntRange(0, 6).Draw(t, "relation") {
+	case 6:
+		// the same path string from two directories names two files, and one file has several
+		// spellings: every spelling must render what the rooted spelling renders
+		ext := rapid.SampledFrom([]string{"html", "txt", "md"}).Draw(t, "dext")
+		pa, pb := "(A "+body(t, ext, nil, 0)+")", "(B "+body(t, ext, nil, 0)+")"
+		sp := func(label, dir, name string) string {
+			// a spelling of /dir/name as written in a file of dir (or of the root when dir is "")
+			switch rapid.IntRange(0, 2).Draw(t, label) {
+			case 0:
+				return name
+			case 1:
+				return "/" + dir + name
+			}
+			if dir == "" {
+				return name
+			}
+			return "../" + dir + name
+		}
+		a := map[string]string{
+			"a/p." + ext: pa, "b/p." + ext: pb,
+			"a/x." + ext:   "[ax:{{ render \"" + sp("s1", "a/", "p."+ext) + "\" }}{{ render \"" + sp("s2", "a/", "p."+ext) + "\" }}]",
+			"b/y." + ext:   "[by:{{ render \"" + sp("s3", "b/", "p."+ext) + "\" }}]",
+			"index." + ext: "{{ render \"a/x." + ext + "\" }}{{ render \"b/y." + ext + "\" }}{{ render \"" + sp("s4", "", "a/p."+ext) + "\" }}",
+		}
+		b := map[string]string{
+			"a/p." + ext: pa, "b/p." + ext: pb,
+			"a/x." + ext:   "[ax:{{ render \"/a/p." + ext + "\" }}{{ render \"/a/p." + ext + "\" }}]",
+			"b/y." + ext:   "[by:{{ render \"/b/p." + ext + "\" }}]",
+			"index." + ext: "{{ render \"/a/x." + ext + "\" }}{{ render \"/b/y." + ext + "\" }}{{ render \"/a/p." + ext + "\" }}",
+		}
+		return Case{Relation: "render-spellings", V: v, Note: ext, A: a, AName: "index." + ext, B: b, BName: "index." + ext}
 	case 5:
 		// a macro imported from a file of any format: showing the call ≡ assigning the call to a variable and showing it
 		ext := rapid.SampledFrom([]string{"html", "html", "txt", "md", "js", "css"}).Draw(t, "cext")
